@@ -23,7 +23,9 @@ for s in $SEEDS; do
   git -C $W checkout -- .
   t1=$(date +%s)
   lab=$(grep -o 'replay=[^ ]*' /tmp/seed_$s.log | head -1 | sed 's#.*/##')
-  echo "$s property=$prop tier=$tier rc=$rc $(($t1-$t0))s $(grep -c '^VIOLATION' /tmp/seed_$s.log) violations, $(grep -c '^CHECK-BROKEN' /tmp/seed_$s.log) broken $lab"
+  line="$s property=$prop tier=$tier rc=$rc $(($t1-$t0))s $(grep -c '^VIOLATION' /tmp/seed_$s.log) violations, $(grep -c '^CHECK-BROKEN' /tmp/seed_$s.log) broken $lab"
+  echo "$line"
+  echo "$line" >> /verif/seeded/EVAL.txt   # log read by tools/seed_table.py (last line per seed wins)
 done
 git -C /repo worktree remove --force $W
 rm -rf $E
